@@ -7,5 +7,6 @@ INVARIANT CleanUntouched
 INVARIANT InOrder
 INVARIANT NoOkSkipped
 INVARIANT NoLenNeverSkipped
+INVARIANT NeverMixed
 CONSTRAINT Bounded
 CHECK_DEADLOCK FALSE
